@@ -7,17 +7,21 @@
      - layout (c-wsp, c-nl, comment nodes and literal leaves such as parentheses) never reaches the result;
      - numbers of ANY length decode positionally in base 2/10/16, dotted series of any length, ranges, the five
        repeat forms, the char-val case flag, <rulename> vs prose.
-   The former gap is CLOSED (ReaderDeriv*.v): for every derivation tree t of a text s from the meta-grammar (the
-   association list computed from the TRANSLATED rule tables), the tree's abstract syntax IS what the spec reader reads
-   from s — so the meta-grammar is semantically unambiguous modulo layout and the library route (engine on the
-   meta-grammar, then the visitor) yields exactly Registry.load_grammar / Registry.create whenever it yields anything
-   (C04_library_route_is_spec_load, _create).  Still open (hence "partial" stays in the theorem names that predate it): that the
-   library accepts EVERY text the spec reader accepts (the converse inclusion; covered by the status comparison of the
-   three-way correspondence). *)
+   The former gap is CLOSED in both directions (ReaderDeriv1-3, ReaderDeriv, ReaderDerivE2E, ReaderComplete1-2):
+     - for every derivation tree t of a text s from the meta-grammar (the association list computed from the TRANSLATED
+       rule tables), the tree's abstract syntax IS what the spec reader reads from s, and conversely every text the
+       spec reader reads has a derivation: the meta-grammar is semantically unambiguous modulo layout and generates
+       exactly the texts the spec reader accepts;
+     - hence THEOREM C04 / C04_create: from every registry that still holds the boot rules, the library route (its
+       engine on its meta-grammar, then its visitor) succeeds, for all sufficiently large fuel, with registry R' if and
+       only if the specification route (spec reader, then Registry.define_rules) yields R'.  The two routes define
+       the same rule objects with the same parser objects, created in the same order.
+   The theorems named C04_partial_... predate this and are kept: they hold for every tree on which the visitor is defined,
+   a superset of the derivation trees. *)
 From Coq Require Import String Ascii List NArith.
 Import ListNotations.
 From ABNF Require Import Base Engine Spec AbnfRead Registry GenTypes Visit Visitor VisitorProps Tables Compile
-     Bundled RegistryProps ReaderDeriv1 ReaderDeriv ReaderDerivE2E.
+     Bundled RegistryProps ReaderDeriv1 ReaderDeriv ReaderDerivE2E ReaderComplete1 ReaderComplete2.
 Open Scope string_scope.
 
 Theorem C04_partial_visitor_is_compile : forall c n R a,
@@ -108,3 +112,32 @@ Example C04_nonvacuous : exists t,
   arules_of (children t) = read_rulelist ex_text /\ read_rulelist ex_text <> None.
 Proof. destruct ex_nonvacuous as (t & H1 & H2 & H3). exists t. split; [exact H1|]. split; [exact H2|].
   rewrite H3. discriminate. Qed.
+
+(* ---- both directions: the library route IS the specification route -------------------------------------------------- *)
+Theorem C04 : forall c text strict R R', boot_ok R ->
+  (load_grammar c text strict R = Some R' <->
+   exists fuel, forall f, fuel <= f -> lib_load_grammar f c text strict R = LOk R').
+Proof. exact C04_full_stable. Qed.
+Print Assumptions C04.
+
+Theorem C04_create : forall c text R R', boot_ok R ->
+  (create c text R = Some R' <-> exists fuel, lib_create fuel c text R = LOk R').
+Proof. exact C04_full_create. Qed.
+Print Assumptions C04_create.
+
+Theorem C04_reader_accepts_exactly_the_meta_grammar : forall s rs,
+  read_rulelist s = Some rs <->
+  exists t, D (of_list l_meta) s (ERef (rid_meta "rulelist")) 0 [t] (length s) /\ arules_of (children t) = Some rs.
+Proof. exact reader_iff_derivable. Qed.
+Print Assumptions C04_reader_accepts_exactly_the_meta_grammar.
+
+(* not vacuous, through the theorem: a text with comments, continuation lines and =/ is accepted by both routes with the
+   same registry; a text that extends an undefined rule is rejected by both *)
+Example C04_nonvacuous_accept : exists R', load_grammar 2%N ex_text2 false (r_boot tt) = Some R' /\
+  exists fuel, forall f, fuel <= f -> lib_load_grammar f 2%N ex_text2 false (r_boot tt) = LOk R'.
+Proof. exact ex_C04. Qed.
+Example C04_nonvacuous_reject :
+  load_grammar 2%N ex_text false (r_boot tt) = None /\
+  lib_load_grammar 150 2%N ex_text false (r_boot tt) = LOther /\
+  forall fuel R', lib_load_grammar fuel 2%N ex_text false (r_boot tt) <> LOk R'.
+Proof. exact ex_text_rejected_by_both. Qed.
